@@ -47,14 +47,18 @@ theorem updateStage_curr (P : Problem α) (dir : Direction D α) (pr : Params α
   unfold updateStage
   split_ifs <;> first | exact .inl rfl | exact .inr rfl
 
-theorem initQub_qubOK (P : Problem α) (pr : Params α) (f : Nat) (c : Iterate α) (t b : Nat)
-    (h : (initQub P pr f c t b).2.2.2 = false) : QubOK pr (initQub P pr f c t b).1 := by
+/-- The initial step-size loop is left with the quadratic upper bound met (or `L ≥ L_max`) — unless
+    it was left through its stop poll (the flag is visible at the tick the loop ends at). -/
+theorem initQub_qubOK (P : Problem α) (pr : Params α) (stop : Nat → Bool) (f : Nat) (c : Iterate α)
+    (t b : Nat) (h : (initQub P pr stop f c t b).2.2.2 = false)
+    (hs : stop (initQub P pr stop f c t b).2.1 = false) : QubOK pr (initQub P pr stop f c t b).1 := by
   induction f generalizing c t b with
   | zero => simp [initQub] at h
   | succ f ih =>
-    unfold initQub at h ⊢
-    split_ifs at h ⊢ with hc
-    · exact ih _ _ _ h
+    unfold initQub at h hs ⊢
+    split_ifs at h hs ⊢ with hst hc
+    · simp only [] at hs; rw [hst] at hs; exact absurd hs (by decide)
+    · exact ih _ _ _ h hs
     · exact Bool.eq_false_iff.mpr hc
 
 end structural
@@ -170,15 +174,17 @@ theorem gammaInv_step (P : Problem α) (dir : Direction D α) (pr : Params α) (
       · exact ⟨le_trans hgl.2.1 (hall cb' hmem).1, (hall cb' hmem).2⟩
     · exact List.pairwise_cons.mpr ⟨fun b hb => le_trans hcb.2.1 (hall b hb).1, hpw⟩
 
-theorem initQub_GL (P : Problem α) (pr : Params α) (κ : α) (f : Nat) (c : Iterate α) (t b : Nat)
+theorem initQub_GL (P : Problem α) (pr : Params α) (stop : Nat → Bool) (κ : α) (f : Nat)
+    (c : Iterate α) (t b : Nat)
     (h : 0 < c.gamma ∧ c.gamma * c.L = κ) :
-    0 < (initQub P pr f c t b).1.gamma ∧
-    (initQub P pr f c t b).1.gamma * (initQub P pr f c t b).1.L = κ := by
+    0 < (initQub P pr stop f c t b).1.gamma ∧
+    (initQub P pr stop f c t b).1.gamma * (initQub P pr stop f c t b).1.L = κ := by
   induction f generalizing c t b with
   | zero => simpa [initQub] using h
   | succ f ih =>
     unfold initQub
     split_ifs
+    · exact h
     · apply ih
       rw [(evalStep_gammaL P _).1, (evalStep_gammaL P _).2]
       simp only []
@@ -205,15 +211,16 @@ theorem initLipschitz_pos (P : Problem α) (pr : Params α) (x0 gV : Vec α) (gS
 
 /-- The state the main loop starts from satisfies the step-size invariant with
     `κ = Lγ_factor`. -/
-theorem initState_gammaInv (P : Problem α) (d0 : D) (pr : Params α) (x0 gV : Vec α) (gS : α)
+theorem initState_gammaInv (P : Problem α) (d0 : D) (pr : Params α) (stop : Nat → Bool)
+    (x0 gV : Vec α) (gS : α)
     (hmin : 0 < pr.Lmin) (hmax : 0 < pr.Lmax) (hf : 0 < pr.LgammaFactor)
-    (s : St α D) (h : initState P d0 pr x0 gV gS = .inr s) : GammaInv pr.LgammaFactor s := by
+    (s : St α D) (h : initState P d0 pr stop x0 gV gS = .inr s) : GammaInv pr.LgammaFactor s := by
   have hL := initLipschitz_pos P pr x0 gV gS hmin hmax
   unfold initState at h
   simp only [] at h
   split_ifs at h
   injection h with h; subst h
-  have := initQub_GL P pr pr.LgammaFactor pr.lsFuel
+  have := initQub_GL P pr stop pr.LgammaFactor pr.lsFuel
     (evalCostInProx P (evalProxGradStep P
       { (initLipschitz P pr x0 gV gS).1 with
         gamma := pr.LgammaFactor / (initLipschitz P pr x0 gV gS).1.L }))
